@@ -63,12 +63,13 @@ CHECKS = {
          "(init succeeds with the window size oabd.c derives, the data comes out, input ends after the payload, CRC matches) which is a hypothesis validated by differential runs; the window-size rule and CRC accumulation are theorems. "
          "The OAB and LZX DELTA models are executable Lean and agree with the implementation on generated files and patch/base pairs under many DECOMPBUF values; the implementation is judged against the plan."),
    note=PROOF_NOTE + " LZX DELTA decoding itself: differential validation, not a theorem.", technique="Lean 4 theorems (induction over the block list; copy_fh loop invariant) + executable model + plan oracle and differential runs"),
- "C05": dict(category="translation_validation",
-   text=("Executable Lean models of szddd.c, kwajd.c (headers and the LZH decoder), lzssd.c and mszipd_decompress_kwaj are compared with the implementation on generated well-formed files "
-         "(both SZDD variants, all five KWAJ methods, all 64 header-flag combinations, all four LZH length encodings) and on the shipped fixtures; the implementation is judged against the plan "
-         "(header fields and payload bytes). Kernel-checked so far: the SZDD signature tables extracted from today's source. Round-trip theorems for LZSS/LZH/headers are not proved yet, "
-         "hence not claimed as proof."),
-   note=PROOF_NOTE, technique="differential execution of a Lean model against the implementation + plan oracle; Lean decide over regenerated signature tables"),
+ "C05": dict(category="proof",
+   text=("Theorems: C05_lzss_roundtrip - on the model of lzss_decompress, for every LZSS token list (literals, copies of 3..18 bytes from any ring position incl. the pre-filled ring and overlapping copies), every input buffer size >= 1, "
+         "both ring start positions and any position of the stream in a file, the decoder returns OK and has written exactly the reference expansion; C05_szdd_roundtrip - a well-formed SZDD file is opened with exactly its header values "
+         "(format, missing character, length) and decompress writes exactly the expansion. The models of szddd.c, kwajd.c (headers, all five methods incl. LZH and MSZIP) and lzssd.c are executable Lean and agree with the implementation on generated "
+         "files (both SZDD variants, all 64 KWAJ header-flag combinations, all four LZH length encodings, shortest-possible LZH tails) and on the shipped fixtures; the implementation is judged against the plan. "
+         "KWAJ headers and the LZH / MSZIP-KWAJ / xor payload round trips are not theorems."),
+   note=PROOF_NOTE, technique="Lean 4 theorems (token-level specification, induction over groups of eight with a buffer-refill invariant) + differential execution of the models against the implementation + plan oracle"),
  "C07": dict(category="proof",
    text=("CAB: theorems, generic over the stream decoders' counting law, that extract never hands more than the declared length to the output (any input, strict or salvage, any cached state) "
          "and that in strict mode OK implies exactly the declared length; the counting law is proved for stored folders and is an explicit hypothesis for MSZIP/Quantum/LZX. "
